@@ -5,7 +5,7 @@ EXPLANATION = ("Contracts on the share-or-copy decision: the Generation algebra 
 TRUSTED = []
 ASSUMPTIONS = [
     "thread tree axiom (env.rs axiom_thread_tree): a child thread is one level deeper, one generation younger and shares the global state of its parent -- still an axiom of the clone unit, but its construction step is now an obligation of its own (C13/thread/new_thread_construct, on the struct literal of Thread::new_thread, with new_child_gc's proved contract); the induction from the step to the whole tree, and that nothing re-parents a thread later, stay assumed",
-    "clone unit: deep_clone_str/app, the element loop deep_clone_elems, the allocation closure passed to deep_clone_ptr, and hash-map lookups/inserts of the visited map (modelled as a ghost map; Entry API desugared), gc.alloc(Move(ExternFunction::clone)) and Userdata::deep_clone are ASSUMED to return new objects of the receiving heap (fresh); the visited map is opaque",
+    "clone unit: deep_clone_str, the element loop deep_clone_elems, the allocation closure passed to deep_clone_ptr, and hash-map lookups/inserts of the visited map (modelled as a ghost map; Entry API desugared), gc.alloc(Move(ExternFunction::clone)) and Userdata::deep_clone are ASSUMED to return new objects of the receiving heap (fresh); the visited map is opaque",
     "Gc::get_type_info replaced by a non-interning stub in the coherence harness (hash maps are intractable for CBMC)",
     "termination is not proved by Kani",
 ]
@@ -42,6 +42,7 @@ def obligations(tier):
         v("Cloner::deep_clone_ptr", "copies are remembered by the address of the object copied: a second pointer to an already copied object yields the same copy (sharing preserved) and the copy is recorded before the children are cloned (cycles terminate)", "vm/src/value.rs::Cloner::deep_clone_ptr"),
         v("Cloner::deep_clone_data", "the copy of a record / variant is a new object of the receiving heap and every field has been cloned in turn (no shallow copy); the contract assumed at its call site in deep_clone_inner is proved on its body", "vm/src/value.rs::Cloner::deep_clone_data"),
         v("Cloner::deep_clone_closure", "the copy of a closure is a new object of the receiving heap and every captured variable has been cloned in turn", "vm/src/value.rs::Cloner::deep_clone_closure"),
+        v("Cloner::deep_clone_app", "the copy of a partial application is a new object built around a COPY of the function it applies, and every argument it holds has been cloned in turn", "vm/src/value.rs::Cloner::deep_clone_app"),
         v("Gc::new_child_gc", "a child collector is exactly one generation younger than its parent's", "vm/src/gc.rs::Gc::new_child_gc"),
         v("Cloner::new", "a cloner's share policy starts as the generation of the receiving collector", "vm/src/value.rs::Cloner::new"),
         v("Cloner::deep_clone", "same guarantee as deep_clone_inner for the rooted result", "vm/src/value.rs::Cloner::deep_clone"),
